@@ -227,6 +227,14 @@ func (m *CPU) Run(app risc.Application) (int, error) {
 			empty = false
 			eu.Cycle(euReq{cycle, app})
 		}
+		// What the execute units completed still has to be written
+		m.writeBus.Connect(cycle)
+		for _, wu := range m.writeUnits {
+			if !wu.isEmpty() || !m.writeBus.IsEmpty() {
+				empty = false
+			}
+			_ = wu.Cycle(wuReq{-1})
+		}
 		if empty {
 			break
 		}
